@@ -68,11 +68,11 @@ theorem step_continues {cfg : WrapCfg} {gr : Gens} {D : Nat → Prop} {this : Gr
   exact ⟨t, ht⟩
 
 /-- the loop for `OVERFLOW_WRAPS` / `OVERFLOW_IMPOSSIBLE` -/
-theorem loopWI_sound (cfg : WrapCfg) (hw : 0 < cfg.w) (ho : cfg.o = .wraps ∨ cfg.o = .impossible) (gr : Gens) :
-    ∀ (xs : List Nat), xs.Nodup → (∀ x ∈ xs, flawedAt cfg.w cfg.o gr x = false) →
+theorem loopWI_sound (fx : Repairs) (cfg : WrapCfg) (hw : 0 < cfg.w) (ho : cfg.o = .wraps ∨ cfg.o = .impossible) (gr : Gens) :
+    ∀ (xs : List Nat), xs.Nodup → (∀ x ∈ xs, fx.kf12 = true ∨ flawedAt cfg.w cfg.o gr x = false) →
     ∀ (D : Nat → Prop), (∀ x ∈ xs, ¬ D x) → ∀ (this : GridGens), Inv cfg gr D this →
     ∀ (E : Nat → Prop), (∀ i, E i ↔ D i ∨ i ∈ xs) → ∀ v v', gr.Mem v → Img cfg E v v' →
-    ∃ R, loopWI cfg.w cfg.o (minValue cfg.r cfg.w) (maxValue cfg.r cfg.w) gr xs this = .ok R ∧ Gen.sem R v' := by
+    ∃ R, loopWI fx cfg.w cfg.o (minValue cfg.r cfg.w) (maxValue cfg.r cfg.w) gr xs this = .ok R ∧ Gen.sem R v' := by
   intro xs
   induction xs with
   | nil =>
@@ -82,9 +82,9 @@ theorem loopWI_sound (cfg : WrapCfg) (hw : 0 < cfg.w) (ho : cfg.o = .wraps ∨ c
     intro hnd hnf D hD this hinv E hE v v' hv himg
     have hx : ¬ D x := hD x (List.mem_cons_self)
     have hstep := fun u hu hval a' ha =>
-      stepWI_sound cfg hw ho gr x (hnf x (List.mem_cons_self)) this u hu hval a' ha
+      stepWI_sound fx cfg hw ho gr x (hnf x (List.mem_cons_self)) this u hu hval a' ha
     obtain ⟨t, ht⟩ := step_continues (cfg := cfg) (gr := gr) hx
-      (stepWI cfg.w cfg.o (minValue cfg.r cfg.w) (maxValue cfg.r cfg.w) gr x) hstep hinv
+      (stepWI fx cfg.w cfg.o (minValue cfg.r cfg.w) (maxValue cfg.r cfg.w) gr x) hstep hinv
       (E := E) (fun i h => (hE i).mpr (h.elim Or.inl (fun h => Or.inr (h ▸ List.mem_cons_self))))
       hv himg
     have hinv' := Inv_step hx _ hstep ht hinv
@@ -149,11 +149,11 @@ def Legal (n : Nat) (cfg : WrapCfg) : Prop :=
 /-- **the whole function**: every wrapped image of a point of the argument that is integer on `vars` is in the
 receiver after a normal return; the function returns normally on a legal call when such an image exists
 (provided no wrapped variable goes through the branch of KF-C17-12) -/
-theorem gridWrapAssign_sound (n : Nat) (cfg : WrapCfg) (hw : 0 < cfg.w) (G : GridGens)
-    (hnf : flawed cfg G = false) (hlegal : Legal n cfg)
+theorem gridWrapAssignV_sound (fx : Repairs) (n : Nat) (cfg : WrapCfg) (hw : 0 < cfg.w) (G : GridGens)
+    (hnf : fx.kf12 = true ∨ flawed cfg G = false) (hlegal : Legal n cfg)
     (v v' : Nat → Rat) (hv : Gen.sem G v) (himg : Spec.WrapImage cfg v v') :
-    ∃ R, gridWrapAssign n cfg G = .ok R ∧ Gen.sem R v' := by
-  unfold gridWrapAssign
+    ∃ R, gridWrapAssignV fx n cfg G = .ok R ∧ Gen.sem R v' := by
+  unfold gridWrapAssignV
   have hg : guardTooBig n cfg.guard = false := by
     unfold guardTooBig
     cases hgd : cfg.guard with
@@ -189,8 +189,8 @@ theorem gridWrapAssign_sound (n : Nat) (cfg : WrapCfg) (hw : 0 < cfg.w) (G : Gri
       have himg' : Img cfg (fun i => i ∈ cfg.vars) v v' := ⟨himg.1, himg.2.1⟩
       by_cases ho : cfg.o = .impossible ∨ cfg.o = .wraps
       · rw [if_pos ho]
-        exact loopWI_sound cfg hw (ho.elim Or.inr Or.inl) gr (normVars cfg.vars) (normVars_nodup _)
-          (flawedAt_of_flawed hnf) (fun _ => False) (fun _ _ h => h) (.gens gr) hinv0 _ hE v v' hv himg'
+        exact loopWI_sound fx cfg hw (ho.elim Or.inr Or.inl) gr (normVars cfg.vars) (normVars_nodup _)
+          (fun x hx => hnf.elim Or.inl (fun h => Or.inr (flawedAt_of_flawed h x hx))) (fun _ => False) (fun _ _ h => h) (.gens gr) hinv0 _ hE v v' hv himg'
       · rw [if_neg ho]
         have hu : cfg.o = .undefined := by
           cases h : cfg.o with
@@ -199,5 +199,18 @@ theorem gridWrapAssign_sound (n : Nat) (cfg : WrapCfg) (hw : 0 < cfg.w) (G : Gri
           | impossible => exact absurd (Or.inl h) ho
         exact loopU_sound cfg hu gr (normVars cfg.vars) (normVars_nodup _)
           (fun _ => False) (fun _ _ h => h) (.gens gr) hinv0 _ hE v v' hv himg'
+
+/-- **the function as it is written now** (repairs 3a4d83e, 4614ba1): full strength -/
+theorem gridWrapAssign_sound (n : Nat) (cfg : WrapCfg) (hw : 0 < cfg.w) (G : GridGens) (hlegal : Legal n cfg)
+    (v v' : Nat → Rat) (hv : Gen.sem G v) (himg : Spec.WrapImage cfg v v') :
+    ∃ R, gridWrapAssign n cfg G = .ok R ∧ Gen.sem R v' :=
+  gridWrapAssignV_sound repaired n cfg hw G (Or.inl rfl) hlegal v v' hv himg
+
+/-- the function before the repairs: every call outside the branch of KF-C17-12 -/
+theorem gridWrapAssignBeforeFix_sound (n : Nat) (cfg : WrapCfg) (hw : 0 < cfg.w) (G : GridGens)
+    (hnf : flawed cfg G = false) (hlegal : Legal n cfg)
+    (v v' : Nat → Rat) (hv : Gen.sem G v) (himg : Spec.WrapImage cfg v v') :
+    ∃ R, gridWrapAssignBeforeFix n cfg G = .ok R ∧ Gen.sem R v' :=
+  gridWrapAssignV_sound beforeFix n cfg hw G (Or.inr hnf) hlegal v v' hv himg
 
 end PPLV.Wrap.GW
